@@ -237,6 +237,9 @@ class SyncManager(Runnable):
                 log.log(TRACE, "do sync=%s", sync)
                 need_to_sleep = False
                 something_got_done = self._sync_one_entry(sync)
+            else:
+                # change() fills in missing paths even when it finds nothing old enough to sync
+                self.state.storage_commit()
 
         if need_to_sleep:
             time.sleep(self.aging)
